@@ -138,6 +138,8 @@ func (cb *CanonicalBlock) UnmarshalCbor(r io.Reader) error {
 
 	if crcT, err := cboring.ReadUInt(r); err != nil {
 		return err
+	} else if crcT > uint64(CRC32) {
+		return fmt.Errorf("unknown CRCType %d", crcT)
 	} else {
 		cb.CRCType = CRCType(crcT)
 	}
